@@ -27,7 +27,8 @@ def check(prog: Program, tier: str) -> Result:
             "(R5.2) the same sinks on module-level mutable objects, `global` statements and mutable default arguments "
             "that are mutated: zero expected, with a positive-control fixture that must be reported on every run. "
             "(R5.3) writes to interpreter-global state (sys.path, sys.stdout, os.environ, os.chdir) are undone in a "
-            "finally of the same try. Not decided: that cached functions depend on their arguments only "
+            "finally of the same try. (R5.4) no identity comparison (is / in / id) between objects of two different cache origins - "
+            "identity depends on which call filled the cache first. Not decided: that cached functions depend on their arguments only "
             "(trace_origin reads the file system)."),
         rule_text="instances = mutation sites (sinks) reached by the abstract interpreter, one per (function, statement); non-trivial = the mutated value may alias a parameter or a cached object",
     )
